@@ -48,7 +48,12 @@ func c12Body(c *run.Ctx) {
 	anteSeen, blindsRequested := false, false
 	stackAfterAnte := map[int]int64{}
 	drawBlind := func(s *sim.Sim, short bool) pokertable.TableBlindState {
-		level++
+		// a new level, or corrected amounts within the same level number
+		if level < 1 || choose.Chance(c.Ch, "blind.newlevel", 60) {
+			level++
+		} else {
+			s.Label("update_same_level_number")
+		}
 		bb := int64(2 * (1 + c.Ch.Int("blind.bb", 0, 30)))
 		b := pokertable.TableBlindState{Level: level, BB: bb, SB: bb / 2}
 		if choose.Chance(c.Ch, "blind.ante", 40) {
